@@ -6,7 +6,7 @@
 (* The device part is what the executable twin in harness/c10.py must do (a twin that departs from it  *)
 (* is rejected: the spec, not the Python, is normative); the contract part is the property.            *)
 (* Transports: "serial" (CRC-framed, ACK per frame) and "hid" (reports, no ACK, no integrity check).   *)
-EXTENDS Naturals, Sequences, FiniteSets, TLC, Json, IOUtils
+EXTENDS MbootCmds, FiniteSets, TLC, Json, IOUtils
 Traces == ndJsonDeserialize(IOEnv.TRACE_FILE)
 VARIABLES tid, l,
           call,      \* the API call in flight (record of the "call" event) or [op |-> "none"]
@@ -17,8 +17,10 @@ VARIABLES tid, l,
           sentP,     \* data packets the device accepted in this exchange
           gotC,      \* data frames the device emitted in this exchange
           viol,      \* the host violated the protocol (command inside a data phase, oversized packet, surplus data)
-          done       \* command exchanges the device completed cleanly during this call (sequence of tags)
-vars == <<tid, l, call, dev, cur, faulted, sentB, sentP, gotC, viol, done>>
+          done,      \* command exchanges the device completed cleanly during this call (sequence of tags)
+          cmds,      \* the command packets that reached the device during this call: [tag, flags, params] (read-only queries in front of a data phase left out)
+          strict     \* a fault hit this call after which the protocol leaves no way to a successful end (NAK, abort, truncated or missing frame)
+vars == <<tid, l, call, dev, cur, faulted, sentB, sentP, gotC, viol, done, cmds, strict>>
 T == Traces[tid].ev
 E == T[l]
 Serial == Traces[tid].transport = "serial"
@@ -26,7 +28,7 @@ Is(e) == l <= Len(T) /\ E.ev = e
 Adv == l' = l + 1 /\ UNCHANGED tid
 NoCur == [tag |-> 0, shape |-> "none", len |-> 0, chunks |-> 0]
 Init == /\ tid \in 1..Len(Traces) /\ l = 1 /\ call = [op |-> "none"] /\ dev = "idle" /\ cur = NoCur
-        /\ faulted = FALSE /\ sentB = 0 /\ sentP = 0 /\ gotC = 0 /\ viol = FALSE /\ done = <<>> /\ TLCSet(tid, 1)
+        /\ faulted = FALSE /\ sentB = 0 /\ sentP = 0 /\ gotC = 0 /\ viol = FALSE /\ done = <<>> /\ cmds = <<>> /\ strict = FALSE /\ TLCSet(tid, 1)
 
 \* shape of a command as the bootloader defines it: what follows the command packet
 \*   cmd: one generic response | value: one response carrying values | in: response, data frames, final response
@@ -38,7 +40,7 @@ ValueTags == {7, 15}                      \* GetProperty, FlashReadOnce
 \* or, for the read operations, the device announces a length (in): the event carries the shape the device derived.
 Call == /\ Is("call") /\ call.op = "none" /\ dev \in {"idle", "dead"}
         /\ call' = E /\ faulted' = FALSE /\ viol' = FALSE /\ done' = <<>> /\ cur' = NoCur /\ sentB' = 0 /\ sentP' = 0 /\ gotC' = 0
-        /\ UNCHANGED dev /\ Adv
+        /\ cmds' = <<>> /\ strict' = FALSE /\ UNCHANGED dev /\ Adv
 \* ---------------------------------------------------------------- host frames as the device sees them
 HostCmd == /\ Is("h2d") /\ E.kind = "cmd" /\ call.op # "none"
            /\ dev \in {"idle", "dataout", "dead"}
@@ -51,7 +53,9 @@ HostCmd == /\ Is("h2d") /\ E.kind = "cmd" /\ call.op # "none"
            /\ cur' = [tag |-> E.tag, shape |-> E.shape, len |-> E.len, chunks |-> E.chunks]
            /\ sentB' = 0 /\ sentP' = 0 /\ gotC' = 0
            /\ dev' = (IF dev = "dead" THEN "dead" ELSE IF Serial THEN "ack_cmd" ELSE "resp0")
-           /\ UNCHANGED <<call, faulted, done>> /\ Adv
+           /\ E.rsv = 0                                                                   \* reserved byte of the command header
+           /\ cmds' = (IF IsQuery(E) /\ call.op # "get_property" THEN cmds ELSE Append(cmds, P(E.tag, E.flags, E.params)))
+           /\ UNCHANGED <<call, faulted, done, strict>> /\ Adv
 HostData == /\ Is("h2d") /\ E.kind = "data" /\ call.op # "none"
             /\ dev \in {"dataout", "dead", "idle"}
             /\ viol' = (viol \/ E.n > call.mps \/ ~E.crcOk \/ dev = "idle" \/ (dev = "dataout" /\ sentB + E.n > cur.len))
@@ -59,42 +63,56 @@ HostData == /\ Is("h2d") /\ E.kind = "data" /\ call.op # "none"
             /\ dev' = (IF dev # "dataout" THEN dev
                        ELSE IF Serial THEN "ack_data"
                        ELSE IF sentB + E.n >= cur.len THEN "final" ELSE "dataout")
-            /\ UNCHANGED <<call, cur, faulted, gotC, done>> /\ Adv
+            /\ UNCHANGED <<call, cur, faulted, gotC, done, cmds, strict>> /\ Adv
 \* load-image style data without a command: the device takes it as it comes (no exchange, no response)
 HostRaw == /\ Is("h2d") /\ E.kind = "raw" /\ call.op = "load_image" /\ dev = "idle"
            /\ viol' = (viol \/ E.n > call.mps \/ ~E.crcOk) /\ sentB' = sentB + E.n /\ sentP' = sentP + 1
-           /\ dev' = (IF Serial THEN "ack_raw" ELSE "idle") /\ UNCHANGED <<call, cur, faulted, gotC, done>> /\ Adv
-HostAck == Is("h2d") /\ E.kind = "ack" /\ Serial /\ UNCHANGED <<call, dev, cur, faulted, sentB, sentP, gotC, viol, done>> /\ Adv
+           /\ dev' = (IF Serial THEN "ack_raw" ELSE "idle") /\ UNCHANGED <<call, cur, faulted, gotC, done, cmds, strict>> /\ Adv
+HostAck == Is("h2d") /\ E.kind = "ack" /\ Serial /\ UNCHANGED <<call, dev, cur, faulted, sentB, sentP, gotC, viol, done, cmds, strict>> /\ Adv
 \* ---------------------------------------------------------------- device emissions (reference behaviour)
 Hit == E.fault \notin {"none", "notready"}                     \* "err" (the device itself reports an error status) counts: the call must not succeed
 Kills(f) == f \in {"trunc", "abort"}                          \* after these the device sends nothing more
 After(next) == IF Kills(E.fault) THEN "dead" ELSE next
+\* faults the property names as fatal for the call: NAK, abort frame, truncated or missing frame.  One documented exception: the device may restart
+\* before the response to Reset is out, so a Reset whose RESPONSE is lost or cut short may still be reported as done.
+\* ResetGone: after Reset the device falls silent - the response never arrives (whole), or the device is gone before its ACK is out.  A host cannot tell
+\* this from a device that restarted at once: the restarted device is idle again and the command counts as carried out (an explicit NAK is no silence).
+ResetGone == /\ call.op = "reset" /\ cur.tag = 11
+             /\ \/ E.kind = "resp" /\ E.fault \in {"drop", "trunc"}
+                \/ E.kind = "ack" /\ E.fault = "trunc"
+\* A fault inside a read-only query the host puts in front of a data phase (negotiated packet size) need not end the call: the host may go on with the default.
+InAuxQuery == cur.tag = 7 /\ call.op # "get_property"
+MustFail == E.fault \in {"nak", "abort", "trunc", "drop"} /\ ~ResetGone /\ ~InAuxQuery
+Strict == strict' = (strict \/ MustFail)
 DevAck == /\ Is("d2h") /\ E.kind = "ack" /\ Serial /\ dev \in {"ack_cmd", "ack_data", "ack_raw"}
           /\ faulted' = (faulted \/ Hit)
-          /\ dev' = After(IF dev = "ack_cmd" THEN "resp0" ELSE IF dev = "ack_raw" THEN "idle"
-                          ELSE IF sentB >= cur.len THEN "final" ELSE "dataout")
-          /\ UNCHANGED <<call, cur, sentB, sentP, gotC, viol, done>> /\ Adv
+          /\ dev' = IF ResetGone THEN "idle"
+                    ELSE After(IF dev = "ack_cmd" THEN "resp0" ELSE IF dev = "ack_raw" THEN "idle"
+                               ELSE IF sentB >= cur.len THEN "final" ELSE "dataout")
+          /\ done' = (IF ResetGone THEN Append(done, cur.tag) ELSE done)
+          /\ Strict /\ UNCHANGED <<call, cur, sentB, sentP, gotC, viol, cmds>> /\ Adv
 \* first (or only) response of an exchange
 DevResp0 == /\ Is("d2h") /\ E.kind = "resp" /\ dev = "resp0"
             /\ E.final = (cur.shape \in {"cmd", "value"})
             /\ (Hit \/ E.status = E.devStatus)                      \* an unfaulted response carries the device's status
             /\ faulted' = (faulted \/ Hit)
             /\ LET ok == E.devStatus = 0 IN
-               /\ dev' = After(IF cur.shape \in {"cmd", "value"} \/ ~ok THEN "idle"
-                               ELSE IF cur.shape = "in" THEN (IF cur.chunks = 0 THEN "final" ELSE "datain")
-                               ELSE (IF cur.len = 0 THEN "final" ELSE "dataout"))
-               /\ done' = (IF cur.shape \in {"cmd", "value"} /\ ok /\ ~Kills(E.fault) /\ E.fault # "drop" THEN Append(done, cur.tag) ELSE done)
-            /\ UNCHANGED <<call, cur, sentB, sentP, gotC, viol>> /\ Adv
+               /\ dev' = IF ResetGone THEN "idle"
+                         ELSE After(IF cur.shape \in {"cmd", "value"} \/ ~ok THEN "idle"
+                                    ELSE IF cur.shape = "in" THEN (IF cur.chunks = 0 THEN "final" ELSE "datain")
+                                    ELSE (IF cur.len = 0 THEN "final" ELSE "dataout"))
+               /\ done' = (IF cur.shape \in {"cmd", "value"} /\ ok /\ ((~Kills(E.fault) /\ E.fault # "drop") \/ ResetGone) THEN Append(done, cur.tag) ELSE done)
+            /\ Strict /\ UNCHANGED <<call, cur, sentB, sentP, gotC, viol, cmds>> /\ Adv
 DevData == /\ Is("d2h") /\ E.kind = "data" /\ dev = "datain" /\ E.chunk = gotC + 1 /\ E.n <= call.mps
            /\ E.n = (IF gotC + 1 = cur.chunks THEN cur.len - call.mps * (cur.chunks - 1) ELSE call.mps)
            /\ gotC' = gotC + 1 /\ faulted' = (faulted \/ Hit)
            /\ dev' = After(IF gotC + 1 = cur.chunks THEN "final" ELSE "datain")
-           /\ UNCHANGED <<call, cur, sentB, sentP, viol, done>> /\ Adv
+           /\ Strict /\ UNCHANGED <<call, cur, sentB, sentP, viol, done, cmds>> /\ Adv
 DevFinal == /\ Is("d2h") /\ E.kind = "resp" /\ dev = "final" /\ E.final
             /\ (Hit \/ E.status = E.devStatus)
             /\ faulted' = (faulted \/ Hit) /\ dev' = After("idle")
             /\ done' = (IF E.devStatus = 0 /\ ~Kills(E.fault) THEN Append(done, cur.tag) ELSE done)
-            /\ UNCHANGED <<call, cur, sentB, sentP, gotC, viol>> /\ Adv
+            /\ Strict /\ UNCHANGED <<call, cur, sentB, sentP, gotC, viol, cmds>> /\ Adv
 \* ---------------------------------------------------------------- the API contract
 Succ == E.kind = "ret" /\ E.val \in {"ok", "data", "values"} /\ E.status = 0
 MaxReads == 3000
@@ -112,7 +130,10 @@ Result ==
               /\ (call.shape = "value" => E.valuesExact))                            \*   values are the device's
   /\ (E.kind = "ret" /\ call.shape = "in" /\ E.val = "data" /\ ~(E.dataExact /\ E.dataLen = call.len) => E.status # 0)   \* partial data only with a failure status
   /\ (call.op = "load_image" /\ E.kind = "ret" /\ E.val = "ok" => E.devGotExact /\ E.devBytes = call.len)
-  /\ call' = [op |-> "none"] /\ UNCHANGED <<dev, cur, faulted, sentB, sentP, gotC, viol, done>> /\ Adv
+  /\ (strict => ~Succ)                                                              \* StrictFaults: NAK / abort / truncated / missing frame end the call in failure
+  /\ LET exp == Cmds(call.op, call.args, call.dl, call.db) IN                        \* AsRequested: the device saw exactly the commands the operation stands for,
+     IF faulted \/ dev = "dead" THEN IsPrefix(cmds, exp) ELSE cmds = exp             \*   with the parameters given (under a fault: no other command than those)
+  /\ call' = [op |-> "none"] /\ UNCHANGED <<dev, cur, faulted, sentB, sentP, gotC, viol, done, cmds, strict>> /\ Adv
 Next == Call \/ HostCmd \/ HostData \/ HostRaw \/ HostAck \/ DevAck \/ DevResp0 \/ DevData \/ DevFinal \/ Result
 Constr == IF TLCGet(tid) < l THEN TLCSet(tid, l) ELSE TRUE
 Post == \A i \in 1..Len(Traces) : \/ TLCGet(i) - 1 = Len(Traces[i].ev)
